@@ -46,6 +46,7 @@ type variant struct {
 	class   string // stable class name (part of violation keys)
 	name    string // what exactly was done
 	token   string
+	body    any // consumer-specific complete message (JSON-LD document) used instead of token when non-nil
 	verdict verdict
 }
 
@@ -59,7 +60,9 @@ type party struct {
 type seed struct {
 	compact string
 	pub     crypto.PublicKey  // the key the protocol mandates for this token
-	priv    *ecdsa.PrivateKey // the matching private key when the harness owns it (nil: the key lives in the node)
+	priv    crypto.Signer     // the matching private key when the harness owns it (nil: the key lives in the node)
+	// notAllowed: algorithms of the key's own family that the consumer does not allow (e.g. RS256 where only PS* is allowed)
+	notAllowed []string
 	// embedsJWK: the protocol carries the verification key in the `jwk` header (DPoP, DAG transaction with jwk).
 	embedsJWK bool
 	// keyBound: the token's signer is pinned from outside the token (issuer claim, thumbprint, authorised user, client key set), so a
@@ -116,6 +119,12 @@ func jwkThumbprint(pub *ecdsa.PublicKey) []byte {
 	s := fmt.Sprintf(`{"crv":"%s","kty":"EC","x":"%s","y":"%s"}`, j["crv"], j["x"], j["y"])
 	h := sha256.Sum256([]byte(s))
 	return h[:]
+}
+
+// didJWKRSA is the did:jwk of an RSA public key.
+func didJWKRSA(pub *rsa.PublicKey) string {
+	e := big.NewInt(int64(pub.E)).Bytes()
+	return "did:jwk:" + b64.EncodeToString([]byte(fmt.Sprintf(`{"e":"%s","kty":"RSA","n":"%s"}`, b64.EncodeToString(e), b64.EncodeToString(pub.N.Bytes()))))
 }
 
 func didJWK(pub *ecdsa.PublicKey) string {
@@ -329,7 +338,7 @@ func variants(s *seed, rnd *rand.Rand, bulk int) []variant {
 		if tok == s.compact && v != vValid {
 			return // the mutation was a no-op on this token
 		}
-		out = append(out, variant{class, name, tok, v})
+		out = append(out, variant{class: class, name: name, token: tok, verdict: v})
 	}
 	keep := func(h map[string]any) string { return encHdr(h) + "." + t.paySeg + "." + t.sigSeg } // header replaced, signature kept
 	origAlg, _ := t.hdr["alg"].(string)
@@ -398,12 +407,18 @@ func variants(s *seed, rnd *rand.Rand, bulk int) []variant {
 	add("alg-other-curve", "ES384/resigned-attacker-p384", s.build(t, with("alg", "ES384"), att.p384), vHostile)
 	add("alg-other-curve", "ES256K/resigned-attacker-p256", encHdr(with("alg", "ES256K"))+"."+t.paySeg+"."+
 		b64.EncodeToString(signRaw("ES256", att.p256, s.input(encHdr(with("alg", "ES256K")), t.paySeg))), vHostile)
-	if s.priv != nil {
+	if ec, ok := s.priv.(*ecdsa.PrivateKey); ok {
 		// the right key, but an algorithm that does not fit it (P-256 key, SHA-384/512 digest, 64-byte signature)
 		for _, a := range []string{"ES384", "ES512"} {
 			if a != origAlg {
-				add("alg-unfit-for-key", a+"/signed-by-legit-p256-key", s.build(t, with("alg", a), s.priv), vHostile)
+				add("alg-unfit-for-key", a+"/signed-by-legit-p256-key", s.build(t, with("alg", a), ec), vHostile)
 			}
+		}
+	}
+	if s.priv != nil {
+		// the right key and an algorithm of its family, but not one the consumer allows
+		for _, a := range s.notAllowed {
+			add("alg-not-allowed", a+"/signed-by-legit-key", s.build(t, with("alg", a), s.priv), vHostile)
 		}
 	}
 
@@ -422,8 +437,8 @@ func variants(s *seed, rnd *rand.Rand, bulk int) []variant {
 		add("sig-altered", "r-and-s-swapped", t.hdrSeg+"."+t.paySeg+"."+b64.EncodeToString(append(append([]byte{}, t.sig[len(t.sig)/2:]...), t.sig[:len(t.sig)/2]...)), vHostile)
 		add("sig-altered", "of-other-token", t.hdrSeg+"."+t.paySeg+"."+b64.EncodeToString(signRaw("ES256", att.p256, []byte("x.y"))), vHostile)
 		// genuine (r,s) of the right key in another encoding: not JOSE, but the same signature
-		add("sig-der-encoded", "asn1-der", t.hdrSeg+"."+t.paySeg+"."+b64.EncodeToString(derSig(t.sig)), vBenign)
 		if e, ok := s.pub.(*ecdsa.PublicKey); ok && len(t.sig)%2 == 0 {
+			add("sig-der-encoded", "asn1-der", t.hdrSeg+"."+t.paySeg+"."+b64.EncodeToString(derSig(t.sig)), vBenign)
 			n := len(t.sig) / 2
 			sNeg := new(big.Int).Sub(e.Curve.Params().N, new(big.Int).SetBytes(t.sig[n:]))
 			add("sig-reencoded", "s-negated", t.hdrSeg+"."+t.paySeg+"."+b64.EncodeToString(append(append([]byte{}, t.sig[:n]...), sNeg.FillBytes(make([]byte, n))...)), vBenign)
@@ -495,7 +510,9 @@ func variants(s *seed, rnd *rand.Rand, bulk int) []variant {
 	if !s.embedsJWK && keyHostile {
 		add("key-injected", "jwk-private/resigned-attacker", s.build(t, with("jwk", ecJWK(&att.p256.PublicKey, att.p256), "alg", "ES256"), att.p256), vHostile)
 		add("key-injected", "jwk+jku+x5c/resigned-attacker", s.build(t, with("jwk", attJWK, "jku", inj["jku"], "x5c", inj["x5c"], "alg", "ES256"), att.p256), vHostile)
-		add("key-injected", "jwk-no-kid/resigned-attacker", s.build(t, with("jwk", attJWK, "kid", nil, "alg", "ES256"), att.p256), vHostile)
+		if s.keyBound { // where any key holder may sign (DAG), replacing `kid` by one's own `jwk` is simply that party's own valid token
+			add("key-injected", "jwk-no-kid/resigned-attacker", s.build(t, with("jwk", attJWK, "kid", nil, "alg", "ES256"), att.p256), vHostile)
+		}
 	}
 
 	// H. kid of another party
@@ -529,8 +546,8 @@ func variants(s *seed, rnd *rand.Rand, bulk int) []variant {
 
 	// J. embedded private key
 	if s.embedsJWK {
-		if s.priv != nil {
-			add("embedded-private-jwk", "legit-key-with-d/signed-by-legit-key", s.build(t, with("jwk", s.legitJWK(t, true)), s.priv), vHostile)
+		if ec, ok := s.priv.(*ecdsa.PrivateKey); ok {
+			add("embedded-private-jwk", "legit-key-with-d/signed-by-legit-key", s.build(t, with("jwk", legitJWK(t, ec)), ec), vHostile)
 		}
 		add("embedded-private-jwk", "attacker-key-with-d/resigned-attacker", s.build(t, with("jwk", ecJWK(&att.p256.PublicKey, att.p256), "alg", "ES256"), att.p256), vHostile)
 		add("embedded-private-jwk", "legit-public-plus-bogus-d/sig-kept", keep(with("jwk", addD(t.hdr["jwk"]))), vHostile)
@@ -559,7 +576,7 @@ func variants(s *seed, rnd *rand.Rand, bulk int) []variant {
 				continue
 			}
 			var res []variant
-			reencodings(s, bt, func(class, name, tok string, _ verdict) { res = append(res, variant{class, name, tok, vHostile}) })
+			reencodings(s, bt, func(class, name, tok string, _ verdict) { res = append(res, variant{class: class, name: name, token: tok, verdict: vHostile}) })
 			if len(res) == 0 {
 				continue
 			}
@@ -570,11 +587,8 @@ func variants(s *seed, rnd *rand.Rand, bulk int) []variant {
 	return out
 }
 
-func (s *seed) legitJWK(t *token, private bool) map[string]any {
-	j := ecJWK(&s.priv.PublicKey, nil)
-	if private {
-		j = ecJWK(&s.priv.PublicKey, s.priv)
-	}
+func legitJWK(t *token, k *ecdsa.PrivateKey) map[string]any {
+	j := ecJWK(&k.PublicKey, k)
 	// keep non-key members of the original jwk (e.g. alg)
 	if o, ok := t.hdr["jwk"].(map[string]any); ok {
 		for k, v := range o {
